@@ -251,7 +251,7 @@ def evaluate():
         pos = tuple(None if v is None else (v + data.shape[a] if v < 0 else v) for a, v in enumerate(origin))
         a_ = set_center(data, origin, crop=crop, axes=axes, order=order)
         b_ = set_center(data, pos, crop=crop, axes=axes, order=order)
-        ok = a_.shape == b_.shape and np.array_equal(a_, b_)
+        ok = a_.shape == b_.shape and np.allclose(a_, b_, rtol=1e-12, atol=1e-9)
     elif clause in ('mass', 'centroid', 'untouched'):
         out = set_center(data, origin, crop=crop, axes=axes, order=order)
         sel = selected(axes, origin)
@@ -389,9 +389,13 @@ def search(ctx, rng, budget):
         if integer:
             data = data.astype(np.int64 if rng.random() < 0.5 else np.int32)
         origin = [n // 2 + float(rng.uniform(-1.5, 1.5)), m // 2 + float(rng.uniform(-1.5, 1.5))]
-        neg = bool(rng.random() < 0.2)
+        neg = bool(rng.random() < 0.35)
         if neg:
-            origin[0] -= n
+            which = int(rng.integers(3))
+            if which in (0, 2):
+                origin[0] -= n
+            if which in (1, 2):
+                origin[1] -= m
         axes = [(0, 1), (0, 1), 0, 1][rng.integers(4)]
         sel = selected(axes, origin)
         tolm, tolc = TOL[order]
@@ -408,6 +412,16 @@ def search(ctx, rng, budget):
             o2 = tuple(origin[a] if sel[a] else None for a in (0, 1))
             ref = set_center(data, o2, crop=crop, axes=axes, order=order)
             untouched = out.shape == ref.shape and np.allclose(out, ref, rtol=0, atol=1e-12)
+            # negative origins count from the end -- also for fractional origins and every crop mode
+            if neg:
+                n_eval += 1
+                pos = tuple(v + (data.shape[a] if v < 0 else 0) for a, v in enumerate(origin))
+                ref2 = set_center(data, pos, crop=crop, axes=axes, order=order)
+                if not (ref2.shape == out.shape and np.allclose(out, ref2, rtol=1e-12, atol=1e-9)):
+                    hits.append(mkhit('negative', 'C12:negative-fractional:%s' % crop,
+                                      'a negative fractional origin %r does not give the same result as the equivalent '
+                                      'non-negative origin %r (shape %r vs %r)' % (tuple(origin), pos, out.shape, ref2.shape),
+                                      data, origin, axes, crop, order))
             # classification of a failure (which specific behaviour is it?)
             trunc = False
             if integer:
